@@ -111,7 +111,7 @@ def op_line(o):
     if k == "fac_add_native":
         return "fac_add_native %d %d %d" % o[1:]
     if k == "fac_migrate":
-        return "fac_migrate %d %d" % o[1:]
+        return "fac_migrate %d %d" % o[1:3] + (" %d" % o[3] if len(o) > 3 and o[3] else "")
     raise ValueError(o)
 
 
@@ -157,7 +157,7 @@ def op_coq(o):
     if k == "fac_add_native":
         return "(OFacAddNative %s)" % n(*o[1:])
     if k == "fac_migrate":
-        return "(OFacMigrate %s)" % n(*o[1:])
+        return "(OFacMigrate %s)" % n(*o[1:3])
     raise ValueError(o)
 
 
@@ -388,7 +388,7 @@ def queries_coq(qs):
     return "[" + "; ".join(out) + "]"
 
 
-MONITORS = {"C10", "C01", "C02", "C03", "C04", "C05", "C07", "C09", "C11", "C12", "C13", "C14", "C16", "C17", "C20"}
+MONITORS = {"C06", "C10", "C01", "C02", "C03", "C04", "C05", "C07", "C09", "C11", "C12", "C13", "C14", "C16", "C17", "C20"}
 
 
 def replay_hist(j):
@@ -496,7 +496,8 @@ def parse_op_line(line):
     if k == "fac_add_native":
         return (k, c.num(), c.num(), c.num())
     if k == "fac_migrate":
-        return (k, c.num(), c.num())
+        caller, ct = c.num(), c.num()
+        return (k, caller, ct, c.num()) if c.more() else (k, caller, ct)
     raise ValueError(line)
 
 
@@ -525,7 +526,7 @@ def setup_pairs(h, rng, pair_assets, whitelist=None, mins=(0, 0), comm=None, pro
                 for u in h.users():
                     h.do(("incr_allow", a[1], u, p, h.ubal))
     if provide:
-        for p in created:
+        for p in (created if provide is True else [q for i, q in enumerate(created) if i in provide]):
             a0, a1 = h.pair_assets(p)
             base = scale if scale is not None else max(1000, h.ubal // rng.choice([4, 10, 1000, 10 ** 6]))
             base = min(base, 2 ** 62)          # the first provision multiplies the two deposits in u128
@@ -708,7 +709,23 @@ def general_histories(rng, tier, n_hist=None, steps=None):
         kinds = [(("n", 0), ("n", 1)), (("n", 0), ("t", 2)), (("t", 2), ("t", 3))]
         if rng.random() < 0.5:
             kinds.append((("n", 1), ("t", 3)))
-        setup_pairs(h, rng, kinds)
+        if hi % 2 == 0 and len(kinds) == 3:
+            # a pair that nobody has provisioned yet (LP supply 0) but that already holds both assets, sent to it
+            # directly: swaps and quotes work on it, the first provision is still to come
+            kinds.append((("n", 1), ("t", 2)))
+            created = setup_pairs(h, rng, kinds, provide={0, 1, 2})
+            q = created[-1]
+            base = max(1000, h.ubal // rng.choice([10, 10 ** 4, 10 ** 8]))
+            h.do(("bank", USER0 + 2, q, [(1, base)]))
+            h.do(("transfer", 2, USER0 + 2, q, max(1, base // rng.choice([1, 3, 1000]))))
+            h.query("sim %d %s %d" % (q, a_line(("n", 1)), max(1, base // 100)))
+            h.query("revsim %d %s %d" % (q, a_line(("n", 1)), max(1, base // 1000)))
+            h.query("rsim %d %s" % (max(1, base // 100), ops_line([(("t", 2), ("n", 1))])))
+            amt = max(1, base // 50)
+            quote = h.query("sim %d %s %d" % (q, a_line(("n", 1)), amt))
+            h.do(("swap", q, USER0 + 1, [(1, amt)], ("n", 1), amt, None, None, None), quote)
+        else:
+            setup_pairs(h, rng, kinds)
         for _ in range(steps):
             u = rng.choice(h.users())
             pairs = h.pairs()
@@ -814,6 +831,20 @@ def auth_matrix(rng, tier):
                  if (a, b) not in [(("n", 0), ("t", 2)), (("t", 2), ("t", 3))]]
         rng.shuffle(fresh)
         formers = []
+        # hook origins: with LP parked at the pairs (so that a withdrawal relayed by the wrong token would have
+        # something to burn), every cw20 a user holds relays a withdraw hook and a swap hook to every pair
+        for q in created:
+            lq = h.pair_lp(q)
+            if h.bal(lq, USER0) > 1000:
+                h.do(("transfer", lq, USER0, q, 500))
+        for q in created:
+            lq = h.pair_lp(q)
+            for ta in [2, 3, 4] + [h.pair_lp(x) for x in created]:
+                if h.bal(ta, USER0) >= 10:
+                    if ta != lq:
+                        h.do(("send", ta, USER0, q, 10, ("hwithdraw",)))
+                    if ("t", ta) not in h.pair_assets(q):
+                        h.do(("send", ta, USER0, q, 10, ("hswap", ("t", ta), 10, None, None, None)))
         for phase in (0, 1, 2):
             owner = h.owner()
             if phase < 2:
@@ -939,6 +970,57 @@ def first_provision_matrix(rng, tier):
                 if r0 > 0 and r1 > 0:
                     n0 = max(1, r0 // 7)
                     prov(c, n0, max(1, n0 * r1 // r0), rcv)
+        cases.append(h.finish())
+    return cases
+
+
+def commission_histories(rng, tier):
+    """pairs of every kind created with commission rates {0, default, 1%, 1/2, 1, 10^-18}; direct swaps by both entry
+    points and quotes before and after the factory owner migrates each pair (no code id, the current one, another
+    stored copy of the same code) and after a code roll-out (C06 at system level)"""
+    cases = []
+    rates = [0, None, 10 ** 16, 5 * 10 ** 17, D, 1, 3 * 10 ** 16]
+    for rep in range({"quick": 2, "thorough": 8}[tier]):
+        h = Hist(3, 2, 2, 4, 10 ** 24, 1000, [6, 18], "directed-matrix", "commission rates x migration")
+        kinds = [(("n", 0), ("n", 1)), (("n", 0), ("t", 2)), (("t", 2), ("t", 3)), (("t", 3), ("n", 1))]
+        owner = h.owner()
+        for d in range(h.nd):
+            h.do(("fac_add_native", owner, d, 6))
+        for i, (a0, a1) in enumerate(kinds):
+            h.do(("fac_create_pair", owner, a0, a1, [USER0], 0, 0, rates[(i + 4 * rep) % len(rates)], None))
+        created = h.pairs()
+        for p in created:
+            for a in h.pair_assets(p):
+                if a[0] == "t":
+                    for u in h.users():
+                        h.do(("incr_allow", a[1], u, p, h.ubal))
+            a0, a1 = h.pair_assets(p)
+            n0, n1 = rng.choice([4000396, 10 ** 12, 10 ** 20]), rng.choice([9124100, 3 * 10 ** 12, 7 * 10 ** 19])
+            h.do(("provide", p, USER0, funds_for([(a0, n0), (a1, n1)]), a0, n0, a1, n1, None, None))
+
+        def swaps(p):
+            u = USER0 + 1
+            for i in (0, 1):
+                offer = h.pair_assets(p)[i]
+                r = h.reserves(p)
+                for amt in (max(1, r[i] // 32), max(1, r[i] // 1000) + 7, 123457):
+                    amt = min(amt, h.abal(offer, u))
+                    if amt <= 0:
+                        continue
+                    quote = h.query("sim %d %s %d" % (p, a_line(offer), amt))
+                    if offer[0] == "n":
+                        h.do(("swap", p, u, [(offer[1], amt)], offer, amt, None, None, None), quote)
+                    else:
+                        h.do(("send", offer[1], u, p, amt, ("hswap", offer, amt, None, None, None)), quote)
+        for p in created:
+            swaps(p)
+        for i, p in enumerate(created):
+            h.do(("fac_migrate", owner, p, (i + rep) % 3))
+            swaps(p)
+        h.do(("fac_update_config", owner, None, 8))
+        for i, p in enumerate(created[:2]):
+            h.do(("fac_migrate", owner, p, 1 + (i + rep) % 2))
+            swaps(p)
         cases.append(h.finish())
     return cases
 
@@ -1076,6 +1158,15 @@ def registry_histories(rng, tier):
                 h.do(("fac_create_pair", owner, a, ("t", 40), [USER0], 0, 0, None, None))   # not a cw20
             if rng.random() < 0.2:
                 h.do(("fac_add_native", owner, rng.randrange(4), rng.choice([0, 6, 9, 18])))
+            if rng.random() < 0.2:
+                # the owner points the factory at another stored copy of the pair / LP-token code
+                h.do(("fac_update_config", owner, None, rng.choice([8, 4, 12])))
+            if rng.random() < 0.15 and h.pairs():
+                h.do(("fac_migrate", owner, rng.choice(h.pairs()), rng.choice([0, 1, 2])))
+        # a code roll-out and an explicit migration before the final registrations, whatever the random choices were
+        h.do(("fac_update_config", owner, None, 8))
+        if h.pairs():
+            h.do(("fac_migrate", owner, h.pairs()[0], 2))
         for d in (0, 1, 0, 3):
             h.do(("fac_add_native", owner, d, rng.choice([0, 9, 12, 18])))
             h.do(("fac_add_native", USER0 + 1, d, 3))
@@ -1198,6 +1289,29 @@ def guard_histories(rng, tier):
     for rep in range({"quick": 3, "thorough": 30}[tier]):
         h = Hist(3, 2, 2, 3, 10 ** 24, 1000, [rng.choice([0, 6, 18]), rng.choice([6, 18])], "directed-boundary", "guards at system level")
         created = setup_pairs(h, rng, [(("n", 0), ("t", 2)), (("t", 2), ("t", 3)), (("n", 0), ("n", 1))], comm=3 * 10 ** 15)
+        # dust offers on a lopsided pool: the pool pays out 0 with spread 0, while the belief price (decimals-normalised)
+        # promises at least 2 units; with a spread limit below 1 such a swap must be refused by the guard
+        for p in created[rep % 3:rep % 3 + 2]:
+            a0, a1 = h.pair_assets(p)
+            r0, r1 = h.reserves(p)
+            if r1 > 0 and r0 < 1000 * r1:
+                n = min(1000 * r1 - r0, h.abal(a0, USER0 + 2))
+                if n > 0:
+                    h.do(("bank", USER0 + 2, p, [(a0[1], n)]) if a0[0] == "n" else ("transfer", a0[1], USER0 + 2, p, n))
+            r0, r1 = h.reserves(p)
+            if r1 == 0 or r0 < 10 * r1:
+                continue
+            amount = max(1, (r0 // r1) * 9 // 10)
+            od, rd = h.pair(p, 5), h.pair(p, 6)
+            onorm = amount * 10 ** (rd - od) if rd > od else amount
+            u = USER0 + 1
+            h.query("sim %d %s %d" % (p, a_line(a0), amount))
+            bp3 = min(max(1, onorm * D // 3), 2 ** 127)      # a cosmwasm Decimal holds 128 bits
+            for bp, ms in ((bp3, D // 10), (bp3, D - 1), (None, D // 10), (bp3, None)):
+                if a0[0] == "n":
+                    h.do(("swap", p, u, [(a0[1], amount)], a0, amount, bp, ms, None))
+                else:
+                    h.do(("send", a0[1], u, p, amount, ("hswap", a0, amount, bp, ms, None)))
         for _ in range({"quick": 30, "thorough": 50}[tier]):
             p = rng.choice(h.pairs())
             u = rng.choice(h.users())
